@@ -101,7 +101,7 @@ fn main() {
     std::fs::create_dir_all(&outdir).unwrap();
     std::panic::set_hook(Box::new(|_| {}));
     let mut h = Harness::new(&prop, tier, seed);
-    if matches!(prop.as_str(), "C11" | "C12" | "C13") {
+    if prop == "C13" {
         h.trace_path = Some(outdir.join("current_case.txt"));
     }
 
